@@ -266,6 +266,27 @@ pub fn first_significant(s: &str, from: usize) -> usize {
     }
 }
 
+/// whitespace outside C comments?
+fn has_ws_outside_comments(s: &str) -> bool {
+    let mut i = 0;
+    while i < s.len() {
+        let rest = &s[i..];
+        if rest.starts_with("/*") {
+            match rest[2..].find("*/") {
+                Some(p) => i += 2 + p + 2,
+                None => return false,
+            }
+            continue;
+        }
+        let c = rest.chars().next().unwrap_or(' ');
+        if c.is_whitespace() {
+            return true;
+        }
+        i += c.len_utf8();
+    }
+    false
+}
+
 pub enum DeletionCase {
     /// mutated source + expected error offset
     Check { src: String, at: usize },
@@ -300,6 +321,24 @@ pub fn apply_deletion(prog: &Prog, d: &Deletion) -> DeletionCase {
     };
     if at >= src.len() {
         return DeletionCase::Skip; // end of input: the ';' rule has no error there
+    }
+    // The deletion must not merge the neighbours into one token: after a name expression
+    // (%let / %do / %copy) comments do not end the name, only whitespace does, and the name
+    // continues with name characters, '&' and '%'; after a keyword only direct adjacency merges.
+    if d.expect_at.is_none() {
+        let between = &src[d.prev_end..at];
+        let before = src[..d.prev_end].chars().next_back();
+        let after = src[at..].chars().next();
+        let cont = |c: Option<char>| c.is_some_and(|c| c == '_' || c.is_alphanumeric() || unicode_ident::is_xid_continue(c));
+        let name_expr = matches!(d.token, TokenType::ASSIGN | TokenType::FSLASH);
+        let no_gap = if name_expr { !has_ws_outside_comments(between) } else { between.is_empty() };
+        if no_gap && cont(before) && (cont(after) || (name_expr && matches!(after, Some('&' | '%')))) {
+            return DeletionCase::Skip;
+        }
+        // after a macro variable reference the name expression also continues
+        if no_gap && name_expr && (cont(after) || matches!(after, Some('&' | '%' | '.'))) {
+            return DeletionCase::Skip;
+        }
     }
     // the delimiter must really be missing now
     if src[at..].starts_with(dc) {
